@@ -195,6 +195,11 @@ def multi_cells(chk: Check, mm: Mismatch, *, variant: str, hdrs: list, via: str,
     sig = {"site": "multi-cell", "rule": variant, "via": via, "guards": guards}
     xs = [tuple(rng.randint(0, 1) for _ in range(T)) for _ in range(n)]
     ys = [tuple(rng.randint(0, 1) for _ in range(T)) for _ in range(n)]
+    shared = bool(hdrs[0].get("shared"))
+    if shared:
+        ys = [ys[0]] * n                  # one neuron group: the cells see the same postsynaptic spikes
+        guards = False
+        sig["shared"] = True
     rep = {"hdrs": hdrs, "via": via, "pre": xs, "post": ys}
     try:
         run = MultiRun(hdrs, via=via)
